@@ -2,6 +2,7 @@ package regclient
 
 import (
 	"archive/tar"
+	"bytes"
 	"cmp"
 	"compress/gzip"
 	"context"
@@ -1545,12 +1546,24 @@ func (rc *RegClient) imageImportOCIHandleManifest(ctx context.Context, r ref.Ref
 					mediatype.OCI1Layer, mediatype.OCI1LayerGzip, mediatype.OCI1LayerZstd,
 					mediatype.BuildkitCacheConfig:
 					// known blob media types
+					// the tar entry was consumed above, upload from the buffered content
+					if _, err := rc.BlobHead(ctx, r, d); err != nil {
+						if _, err := rc.BlobPut(ctx, r, d, bytes.NewReader(b)); err != nil {
+							return err
+						}
+					}
 					return rc.imageImportBlob(ctx, r, d, trd)
 				default:
 					// attempt manifest import, fall back to blob import
 					md, err := manifest.New(manifest.WithDesc(d), manifest.WithRaw(b))
 					if err == nil {
 						return rc.imageImportOCIHandleManifest(ctx, r, md, trd, true, child)
+					}
+					// the tar entry was consumed above, upload from the buffered content
+					if _, err := rc.BlobHead(ctx, r, d); err != nil {
+						if _, err := rc.BlobPut(ctx, r, d, bytes.NewReader(b)); err != nil {
+							return err
+						}
 					}
 					return rc.imageImportBlob(ctx, r, d, trd)
 				}
